@@ -443,6 +443,65 @@ def run_cap_case(arg):
     return out
 
 
+def real_huge_blob_case(chk, binary, scratch):
+    """Thorough tier: a REAL blob of 2^32+1 zero bytes (about 4 MB on disk after zlib), reached through a tree, to validate
+    that the declared-size stand-ins behave like real objects."""
+    import hashlib
+    import zlib
+    d = os.path.join(scratch, "realhuge")
+    gitdir = G.init_repo(os.path.join(d, "repo"), bare=True)
+    size = 2 ** 32 + 1
+    hdr = b"blob %d\0" % size
+    h = hashlib.sha1()
+    h.update(hdr)
+    co = zlib.compressobj(1)
+    tmp = os.path.join(d, "blob.tmp")
+    chunk = b"\0" * (1 << 24)
+    with open(tmp, "wb") as f:
+        f.write(co.compress(hdr))
+        left = size
+        while left > 0:
+            n = min(left, len(chunk))
+            h.update(chunk[:n])
+            f.write(co.compress(chunk[:n]))
+            left -= n
+        f.write(co.flush())
+    oid = h.hexdigest()
+    os.makedirs(os.path.join(gitdir, "objects", oid[:2]), exist_ok=True)
+    os.rename(tmp, os.path.join(gitdir, "objects", oid[:2], oid[2:]))
+
+    class RealBlob(G.Blob):
+        pass
+    b_ = G.Blob(b"", declared_size=size)
+    b_._oid = oid
+    m = G.Model()
+    t = G.Tree([G.Entry(G.FILE, b"zeros.bin", b_), G.Entry(G.FILE, b"small", G.Blob(b"abc"))])
+    m.refs["refs/heads/main"] = G.Commit(G.Tree([G.Entry(G.TREE, b"a", t), G.Entry(G.TREE, b"b", t)]), [])
+    objdir = os.path.join(gitdir, "objects")
+    for o in m.all_objects().values():
+        if o is not b_:
+            G.write_loose(objdir, o)
+    G.write_refs(gitdir, m.refs)
+    p = G.rgit(gitdir, "cat-file", "--batch-check", input=(oid + "\n").encode(), check=False)
+    if p.stdout.decode().split() != [oid, "blob", str(size)]:
+        chk.inconc("generator: git does not see the real 4 GiB blob as written: %r" % p.stdout[:100])
+        return
+    r = R.sizer(binary, gitdir, ["--json", "--no-progress"], tmpdir=d, timeout=600)
+    chk.count()
+    js, _ = P.parse_json(r.out) if r.rc == 0 else (None, None)
+    if js is None:
+        chk.violation("C05/run-failed/real-4GiB-blob", {"rc": r.rc, "stderr": r.err[-300:]})
+    else:
+        ex = O.compute(list(m.refs.values()))
+        bad = {k: [ex.sat(k), js.get(k)] for k in O.CAPS if k != "reference_count" and js.get(k) != ex.sat(k)}
+        if bad:
+            chk.violation("C05/caps/value/real-4GiB-blob/" + sorted(bad)[0], {"diff": bad})
+        chk.nontrivial("real-4GiB-blob")
+        chk.sample({"case": "real blob of 2^32+1 bytes", "max_blob_size": js.get("max_blob_size"), "unique_blob_size": js.get("unique_blob_size"),
+                    "max_expanded_blob_size": js.get("max_expanded_blob_size")}, limit=20)
+    shutil.rmtree(d, ignore_errors=True)
+
+
 def control_cpu(binary, scratch, nobjects):
     """CPU time of a scan of a repository with about `nobjects` distinct objects and no repetition."""
     rng = random.Random("ctl")
@@ -476,6 +535,8 @@ def run(chk, b, tier):
     shimdir = b.shimdir()
     nperm = 4 if tier == "quick" else 12
     res = R.pmap(run_cap_case, [(i, n, sz, scratch, tier, shimdir, nperm) for i, n in enumerate(names)], nproc=8, chk=chk)
+    if tier != "quick":
+        real_huge_blob_case(chk, sz, scratch)
     ctl = control_cpu(sz, scratch, 60)
     chk.cov["control_cpu_s"] = round(ctl, 4)
     nsat = 0
